@@ -19,17 +19,32 @@ import collections
 from vt.explore.chooser import obs_hash
 
 
-def bfs(system, max_depth, res, label="", max_states=None, sample_every=0):
+def bfs(system, max_depth, res, label="", max_states=None, sample_every=0, start=()):
     """Explore all histories of length <= max_depth (merging equal canonical states).
 
     Updates ``res`` (ShardResult): states, transitions, traces_validated, distinct.
     Returns dict with level sizes.
     """
     impl, model = system.fresh()
+    start = tuple(start)
+    # a shard may start from a non-empty history: its steps are executed and checked here
+    for i, op in enumerate(start):
+        problems = system.apply(impl, model, op, True)
+        res.transitions += 1
+        res.traces_validated += 1
+        res.evaluations += 1
+        for clause, msg in problems:
+            h = start[: i + 1]
+            fp = system.fingerprint(clause, h, msg) if hasattr(system, "fingerprint") else "%s/%s" % (label, clause)
+            res.violation(fp, "%s after history %r" % (msg, list(h)), system.replay_data(h))
+        if problems and getattr(system, "stop_at_violation", True):
+            return [0]
     k0 = system.canon(impl, model)
     seen = {k0} if k0 is not None else set()
-    frontier = collections.deque([()])
+    frontier = collections.deque([start])
     res.states += 1
+    if start:
+        res.distinct.add(obs_hash((label, k0 if k0 is not None else ("hist", start))))
     levels = [1]
     depth_done = 0
     nontrivial_from = getattr(system, "nontrivial_from", 1)
@@ -81,3 +96,101 @@ def bfs(system, max_depth, res, label="", max_states=None, sample_every=0):
         depth_done = max(depth_done, len(hist) + 1)
     res.notes["max_depth"] = max(res.notes.get("max_depth", 0), depth_done)
     return levels
+
+
+# ---------------------------------------------------------------------------
+# Level-synchronous parallel BFS (shared seen-set in the master; workers expand
+# chunks of the frontier).  Must be called from the main process.
+
+import hashlib
+import multiprocessing
+import os
+
+_SYS = None
+_LABEL = ""
+
+
+def _digest(key):
+    return hashlib.blake2b(repr(key).encode("utf8", "backslashreplace"), digest_size=16).digest()
+
+
+def _expand(hists):
+    system = _SYS
+    out_new = []
+    local_seen = set()
+    transitions = 0
+    violations = []
+    for hist in hists:
+        impl, model = system.fresh()
+        for op in hist:
+            system.apply(impl, model, op, False)
+        enabled = list(system.ops(model))
+        for op in enabled:
+            impl, model = system.fresh()
+            for o in hist:
+                system.apply(impl, model, o, False)
+            problems = system.apply(impl, model, op, True)
+            transitions += 1
+            new_hist = hist + (op,)
+            if problems:
+                for clause, msg in problems:
+                    fp = system.fingerprint(clause, new_hist, msg)
+                    violations.append((fp, "%s after history %r" % (msg, list(new_hist)), system.replay_data(new_hist)))
+                if getattr(system, "stop_at_violation", True):
+                    continue
+            k = system.canon(impl, model)
+            d = _digest((_LABEL, k if k is not None else ("hist", new_hist)))
+            if d in local_seen:
+                continue
+            local_seen.add(d)
+            out_new.append((d, new_hist))
+    return transitions, violations, out_new
+
+
+def pbfs(system, max_depth, res, label="", jobs=None, sample_every=0, max_states=None):
+    """Parallel BFS; same contract as bfs().  Call from the main process only."""
+    global _SYS, _LABEL
+    _SYS = system
+    _LABEL = label
+    jobs = jobs or int(os.environ.get("VERIF_JOBS", "0")) or min(16, os.cpu_count() or 1)
+    impl, model = system.fresh()
+    k0 = system.canon(impl, model)
+    seen = {_digest((label, k0))}
+    frontier = [()]
+    res.states += 1
+    ctx = multiprocessing.get_context("fork")
+    pool = ctx.Pool(jobs) if jobs > 1 else None
+    try:
+        for depth in range(max_depth):
+            if not frontier:
+                break
+            n = max(1, min(len(frontier), jobs * 8))
+            size = (len(frontier) + n - 1) // n
+            chunks = [frontier[i : i + size] for i in range(0, len(frontier), size)]
+            results = pool.imap(_expand, chunks) if pool is not None else map(_expand, chunks)
+            nxt = []
+            for transitions, violations, new in results:
+                res.transitions += transitions
+                res.traces_validated += transitions
+                res.evaluations += transitions
+                for fp, msg, rd in violations:
+                    res.violation(fp, msg, rd)
+                for d, hist in new:
+                    if d in seen:
+                        continue
+                    seen.add(d)
+                    res.states += 1
+                    res.distinct.add(int.from_bytes(d[:8], "big"))
+                    if sample_every and res.states % sample_every == 0:
+                        res.add_sample({"config": label, "history": [repr(o) for o in hist]})
+                    nxt.append(hist)
+            frontier = nxt
+            res.notes["max_depth"] = max(res.notes.get("max_depth", 0), depth + 1)
+            if max_states is not None and res.states >= max_states:
+                res.caps_hit.append("%s: max_states=%d reached at depth %d" % (label, max_states, depth + 1))
+                break
+    finally:
+        if pool is not None:
+            pool.close()
+            pool.join()
+        _SYS = None
